@@ -1,9 +1,9 @@
 (* C13 -- source facts.  The machines and monitors this property rests on were written against, and validated on,
    these definitions of /repo; tools/srcfacts.py regenerates their normal-form digests on every run (coq/Gen/Src_*.v).
-   Statements only. *)
+   Statements only.  Written by `tools/srcfacts.py --props` from PROP_MODULES. *)
 From Coq Require Import List String.
-From ME Require Import Model.SrcExpected Gen.Src_map Gen.Src_flat_map Gen.Src_common Gen.Src_fmap
-  Proofs.Src_ok_map Proofs.Src_ok_flat_map Proofs.Src_ok_common Proofs.Src_ok_fmap.
+From ME Require Import Model.SrcExpected Gen.Src_map Gen.Src_flat_map Gen.Src_common Gen.Src_fmap Gen.Src_futures_init Gen.Src_logwrap Gen.Src_metrics_null
+  Proofs.Src_ok_map Proofs.Src_ok_flat_map Proofs.Src_ok_common Proofs.Src_ok_fmap Proofs.Src_ok_futures_init Proofs.Src_ok_logwrap Proofs.Src_ok_metrics_null.
 
 (* more_executors/_impl/map.py *)
 Theorem c13_source_map : Src_map.facts = expected_map.
@@ -17,8 +17,20 @@ Proof. exact src_common_ok. Qed.
 (* more_executors/_impl/futures/map.py *)
 Theorem c13_source_fmap : Src_fmap.facts = expected_fmap.
 Proof. exact src_fmap_ok. Qed.
+(* more_executors/_impl/futures/__init__.py *)
+Theorem c13_source_futures_init : Src_futures_init.facts = expected_futures_init.
+Proof. exact src_futures_init_ok. Qed.
+(* more_executors/_impl/logwrap.py *)
+Theorem c13_source_logwrap : Src_logwrap.facts = expected_logwrap.
+Proof. exact src_logwrap_ok. Qed.
+(* more_executors/_impl/metrics/null.py *)
+Theorem c13_source_metrics_null : Src_metrics_null.facts = expected_metrics_null.
+Proof. exact src_metrics_null_ok. Qed.
 
 Print Assumptions c13_source_map.
 Print Assumptions c13_source_flat_map.
 Print Assumptions c13_source_common.
 Print Assumptions c13_source_fmap.
+Print Assumptions c13_source_futures_init.
+Print Assumptions c13_source_logwrap.
+Print Assumptions c13_source_metrics_null.
